@@ -1017,13 +1017,17 @@ class Fxp():
             new_val = new_val_real + 1j * new_val_imag
 
             if index is not None:
-                if isinstance(self.val, np.ndarray) and self.val.dtype.kind in 'iu':
-                    self.val = self.val.astype(complex)     # (real codes receive a complex one by index: they are held as complex numbers from now on)
+                if isinstance(self.val, np.ndarray) and self.val.dtype.kind in 'iu' and self.val.base is None and self.n_word <= 53:
+                    # (real codes receive a complex one by index: they are held as complex numbers from now on; a view into the codes of another
+                    #  object - x[i][j] = v - keeps writing through to them, codes of more than 53 bits stay integers)
+                    self.val = self.val.astype(complex)
                 if isinstance(self.val, np.ndarray):
                     self.val[index] = new_val
                 else:
-                    # (the value of a scalar complex object is a numpy scalar, which cannot be written into)
+                    # (the value of a scalar complex object - or of an element taken out of an array - is a numpy scalar, which cannot be written into)
                     _val = np.array(self.val)
+                    if _val.dtype.kind in 'iu' and self.n_word <= 53:
+                        _val = _val.astype(complex)
                     _val[index] = new_val
                     self.val = _val[()]
             else:
